@@ -11,7 +11,8 @@ import iodproto as P
 import iodclient as C
 import srvgen
 
-CLIENT_ADDR = "4:0a630004:5353"
+CLIENT_ADDR = "4:0a000a02:40000"      # where the server sees the client: = Iodine.World.clientAddr of lean/IodineModel/World.lean
+SERVER_DEST4 = "0a000a01"             # the local address the server receives queries on: = Iodine.World.serverAddr
 
 
 class CliProc:
@@ -167,8 +168,16 @@ class Relay:
 
 class World:
     def __init__(self, rng, srv_exe, cli_exe, relay=None, real_z=False, qtype=10, downenc="-", lazy=1, maxlen=255, pw=b"secret",
-                 td=b"t.example.com", check_ip=1, seltimeout=4, netbits=27, raw_mode=0, autofrag=1, fragsize=1200, force_codec=None):
+                 td=b"t.example.com", check_ip=1, seltimeout=4, netbits=27, raw_mode=0, autofrag=1, fragsize=1200, force_codec=None,
+                 model_clock=False):
         self.rng = rng
+        # model_clock: the clock discipline and the bookkeeping that make the run a schedule of `Iodine.World.Ev` (lean/IodineModel/World.lean),
+        # see `step_model_clock` below; every scheduler / network decision is logged as ("N", …)
+        self.model_clock = model_clock
+        self.vsec = 1000              # (model_clock) the second both harness clocks show
+        self.s_to_next = 10000000     # (model_clock) timeout of the select the server is parked in
+        self.n_up = self.n_down = 0   # serial numbers of the datagrams handed to the network, per direction
+        self._nq = 0
         self.cli_exe, self.real_z = cli_exe, real_z
         self.relay = relay or Relay(rng=rng)
         self.s = srvgen.Harness(srv_exe, real_z)
@@ -186,7 +195,7 @@ class World:
         self.c_state = {}
         self.c_ret = None
         self.stats = {"up": 0, "down": 0, "dropped": 0, "dup": 0, "cticks": 0, "sticks": 0}
-        self.sop("cfg %d %s 0a000001 %d %s 1130 00000000 0 7f000001 %s" % (check_ip, vlib.hx(pw), netbits, vlib.hx(td), "00" * 15 + "01"))
+        self.sop("cfg %d %s 0a000001 %d %s 1130 00000000 0 %s %s" % (check_ip, vlib.hx(pw), netbits, vlib.hx(td), SERVER_DEST4, "00" * 15 + "01"))
         self.sop("rand %d %d %d %d" % tuple(rng.randrange(1 << 31) for _ in range(4)))
         self.cop("ccfg %s %s %d %d %s %d %d 0 1 0" % (vlib.hx(td), vlib.hx(pw), maxlen, qtype, downenc, lazy, seltimeout))
         self.cop("crand " + " ".join(str(rng.randrange(1 << 31)) for _ in range(64)))
@@ -218,6 +227,12 @@ class World:
         self.s_deadline = None
         if st.sel:
             self.s_deadline = self.ms + max(1, st.sel.get("to", 10000000) // 1000)
+            if self.model_clock:
+                # `to=` in the line is the timeout of the select that just RETURNED; the one the server is parked in now is 20 ms iff a live
+                # session has a query to be answered "real soon" (top of tunnel()'s loop)
+                soon = any(d.get("qs", "0/").split("/")[0] != "0" and int(d.get("lp", "0")) + 60 > self.vsec for d in st.slots.values())
+                self.s_to_next = 20000 if soon else 10000000
+                self.s_deadline = self.ms + self.s_to_next // 1000
         for e in st.events:
             if e[0] == "tx" or e[0] == "raw":
                 self.route_down(e[1], vlib.unhx(e[2]))
@@ -234,7 +249,14 @@ class World:
             return []
         events, sel, st = parse_cli(line)
         self.c_sel, self.c_state = sel, st or self.c_state
+        sync = False
+        if self.model_clock and st.get("now", "").isdigit() and int(st["now"]) > self.vsec:
+            # the client's clock moved inside the op (a select that timed out consumed its whole seconds; sleep()): that time has passed for
+            # the server as well (`World.stepC`)
+            self.vsec = int(st["now"]); self.ms = max(self.ms, self.vsec * 1000); sync = True
         self.c_deadline = None if sel is None else self.ms + max(1, sel["to"] // 1000)
+        if sync:
+            self.sop("time %d" % self.vsec)
         for e in events:
             if e[0] in ("tx", "rawtx"):
                 self.route_up(vlib.unhx(e[1]))
@@ -255,17 +277,32 @@ class World:
         """what actually reaches the client in place of `answer` (hostile server / broken relay / spoofer): default unchanged"""
         return [answer]
 
+    def _entry(self, at, msg, serial):
+        """queue entry (deliver_at, tie-break, bytes, serial); model_clock: datagrams due at the same ms are delivered in the order sent"""
+        self._nq += 1
+        return (at, self._nq if self.model_clock else 0, msg, serial)
+
+    def nlog(self, what):
+        if self.model_clock:
+            self.log.append(("N", what))
+
     def route_up(self, msg):
         self.last_queries = (getattr(self, "last_queries", []) + [msg])[-8:]
-        for d in self.net_up(msg):
-            self.up.append((self.ms + d, msg))
+        ds = self.net_up(msg)
+        self.nlog("up %d %d" % (self.n_up, len(ds)))          # serial, copies (0 = lost, 2 = duplicated)
+        for d in ds:
+            self.up.append(self._entry(self.ms + d, msg, self.n_up))
+        self.n_up += 1
         self.stats["up"] += 1
 
     def route_down(self, dst, msg):
         if dst != CLIENT_ADDR and not dst.startswith(CLIENT_ADDR.rsplit(":", 1)[0]):
             return
-        for d in self.net_down(msg):
-            self.down.append((self.ms + d, msg))
+        ds = self.net_down(msg)
+        self.nlog("down %d %d" % (self.n_down, len(ds)))
+        for d in ds:
+            self.down.append(self._entry(self.ms + d, msg, self.n_down))
+        self.n_down += 1
         self.stats["down"] += 1
 
     def set_time(self):
@@ -290,36 +327,84 @@ class World:
         if not cands:
             return False
         t, what = min(cands)
+        if self.model_clock:
+            # a tick pulls the millisecond clock forward (step_model_clock): everything that is overdue then is due NOW; datagrams first
+            # (upstream before downstream), then the selects — the order `World.promptEv` takes
+            prio = {"up": 0, "down": 1, "stick": 2, "ctick": 3}
+            t, what = min(cands, key=lambda c: (max(c[0], self.ms), prio[c[1]]))
         if limit_ms is not None and t > limit_ms:
             self.ms = limit_ms
             return False
         self.ms = max(self.ms, t)
-        self.set_time()
+        if self.model_clock:
+            self.step_model_clock(what)
+        else:
+            self.set_time()
         if what == "up":
             item = min(self.up); self.up.remove(item)
-            q = self.relay.query(item[1]) if item[1][:3] != C.RAW_HEADER[:3] else item[1]
+            q = self.relay.query(item[2]) if item[2][:3] != C.RAW_HEADER[:3] else item[2]
             if q is None:
                 self.stats["dropped"] += 1
+                self.nlog("relaydrop up %d" % item[3])
             elif isinstance(q, tuple):
-                self.down.append((self.ms + 1, q[1]))
+                self.nlog("unmappable the relay answered query %d itself" % item[3])
+                self.down.append(self._entry(self.ms + 1, q[1], -1))
             else:
+                self.nlog("deliverUp %d" % item[3])
                 self.sop("dns %s %s" % (CLIENT_ADDR, vlib.hx(q)))
         elif what == "down":
             item = min(self.down); self.down.remove(item)
-            a = self.relay.answer(item[1]) if item[1][:3] != C.RAW_HEADER[:3] else item[1]
+            a = self.relay.answer(item[2]) if item[2][:3] != C.RAW_HEADER[:3] else item[2]
             if a is None:
                 self.stats["dropped"] += 1
+                self.nlog("relaydrop down %d" % item[3])
             else:
-                for b in self.tamper(a):
+                bs = self.tamper(a)
+                if bs != [a]:
+                    self.nlog("unmappable answer %d was tampered with" % item[3])
+                for b in bs:
                     if self.c_sel is not None and self.c_sel.get("dns") and not self.c.dead:
+                        self.nlog("deliverDown %d" % item[3])
                         self.cop("ans " + vlib.hx(b))
+                    else:
+                        self.nlog("lostDown %d" % item[3])       # nobody is reading the client's socket
         elif what == "ctick":
             self.stats["cticks"] += 1
+            self.nlog("tickC")
             self.cop("tick")
         else:
             self.stats["sticks"] += 1
-            self.sop("tick")
+            self.nlog("tickS")
+            if self.model_clock and self.s_to_next >= 1000000:
+                # h_srv's clock only moves by `time`: the select that times out consumed its whole seconds (`World.step .tickS`)
+                self.vsec += self.s_to_next // 1000000; self.ms = max(self.ms, self.vsec * 1000)
+                self.sop("time %d" % self.vsec)
+                self.sop("tick")
+                self.cop("ctime %d" % self.vsec)
+            else:
+                self.sop("tick")
         return True
+
+    # ---- model_clock: the run as a schedule of `Iodine.World.Ev`
+    # Both harness clocks show `vsec`; seconds pass only (a) inside a select that times out — the whole seconds of ITS timeout, on both sides
+    # (`tickC`: h_cli advances its own clock, the server is told; `tickS`: both are told) — and (b) by an explicit `advance d` before an event
+    # (logged ("N", "advance d"); `time`/`ctime` to both).  The world's millisecond clock only orders the events; it is pulled forward when a
+    # tick makes `vsec` overtake it, so `vsec == ms // 1000` at every event.  (World.lean has no other notion of time: a select that is
+    # interrupted restarts with its full timeout.)
+    def mc_advance(self, d):
+        if d > 0:
+            self.vsec += d
+            self.nlog("advance %d" % d)
+            self.sop("time %d" % self.vsec)
+            self.cop("ctime %d" % self.vsec)
+
+    def step_model_clock(self, what):
+        tau = 0
+        if what == "ctick" and self.c_sel is not None:
+            tau = max(0, self.c_sel["to"]) // 1000000
+        elif what == "stick":
+            tau = self.s_to_next // 1000000
+        self.mc_advance(self.ms // 1000 - self.vsec - tau)
 
     def run_until(self, pred, max_ms, max_steps=20000):
         end = self.ms + max_ms
@@ -354,6 +439,8 @@ class World:
         """hand pending tun frames to whichever side currently has its tun fd selected; record which frames the side ACCEPTED (a client
         that is still sending reads and discards the frame; a server with a full queue drops it — both by design)"""
         did = False
+        if self.model_clock and (getattr(self, "pending_c", []) or getattr(self, "pending_s", [])):
+            self.mc_advance(self.ms // 1000 - self.vsec)
         pc = getattr(self, "pending_c", [])
         if pc and self.c_sel is not None and self.c_sel.get("tun"):
             sending = self.c_state.get("out", "0/").split("/")[0] != "0"
